@@ -382,3 +382,11 @@ def ext_classes():
 
     _EXT.update(XNode=XNode, XTypedNode=XTypedNode, XTree=XTree, XTypedTree=XTypedTree)
     return _EXT
+
+
+def expected_name(node):
+    """What `node.name` has to be, computed from the node's *current* data (never read from the node itself, which might
+    serve a stale value): the extension classes define it as the data in guillemets, the stock classes as format(data)."""
+    if type(node).__name__ in ("XNode", "XTypedNode"):
+        return "\u00ab" + str(node.data) + "\u00bb"
+    return f"{node.data}"
